@@ -167,6 +167,12 @@ class TwinCompare(OpSpec):
         for c in op["charts"]:
             for k, p in (c.get("plans") or {}).items():
                 out.probes.append("twin_delivery_" + p.get("how", "canonical"))
+        def bucket(n):
+            return 0 if n == 0 else 1 if n == 1 else 2 if n <= 3 else 3
+
+        out.sig = ("twin", op["game"], f, len(op["charts"]),
+                   tuple(sorted((k, p.get("how", "canonical")) for c in op["charts"] for k, p in (c.get("plans") or {}).items())),
+                   tuple(sorted((k, bucket(len(v))) for c in op["charts"] for k, v in c["lists"].items())))
         args = op.get("args", {})
         fa, fb, den = self._apply(sess, f, args, A, B, op)
         if fa is None:
